@@ -447,21 +447,25 @@ theorem ext_agree {op : Op} (hop : op = .bvZext ∨ op = .bvSext) {a t : Term} {
     cases this
     rw [simpWidth_of_typeOf hx]
 
-theorem array_args {d : Term} : ∀ (assign : List (Term × Term)) (more : List Term),
-    Mk.arrayArgs d assign = .ok more →
+theorem array_args {idx : Ty} {d : Term} : ∀ (assign : List (Term × Term)) (more : List Term),
+    Mk.arrayArgs idx d assign = .ok more →
     more = (assign.filter (fun kv => kv.2 != d)).flatMap (fun kv => [kv.1, kv.2])
   | [], more, h => by cases h; rfl
   | (k, v) :: rest, more, h => by
     unfold Mk.arrayArgs at h
     split at h
     · cases h
-    · obtain ⟨m, hm, h⟩ := bind_ok h
-      have ih := array_args rest m hm
-      by_cases hv : v = d
-      · subst hv
-        simp only [if_true] at h; cases h
-        simp [List.filter_cons, ih]
-      · simp only [hv, if_false] at h; cases h
+    · split at h
+      · next hv =>
+        subst hv
+        split at h
+        · have ih := array_args rest more h
+          simp [List.filter_cons, ih]
+        · cases h
+      · next hv =>
+        obtain ⟨m, hm, h⟩ := bind_ok h
+        have ih := array_args rest m hm
+        cases h
         simp [List.filter_cons, hv, ih]
 
 theorem array_agree {idx : Ty} {d t : Term} {assign : List (Term × Term)} (h : Mk.Array idx d assign = .ok t) :
